@@ -127,6 +127,39 @@ theorem safe_asStr (v : Val) : Safe env (asStr v) (fun _ => True) := by
   cases v <;> first | exact Safe.bad env _ _ (by decide) | exact Safe.pure env _ trivial
 theorem safe_asTy (v : Val) : Safe env (asTy v) (fun _ => True) := by
   cases v <;> first | exact Safe.bad env _ _ (by decide) | exact Safe.pure env _ trivial
+theorem safe_asPackageV (v : Val) : Safe env (asPackageV v) (fun _ => True) := by
+  cases v <;> first | exact Safe.bad env _ _ (by decide) | exact Safe.pure env _ trivial
+theorem safe_asImportV (v : Val) : Safe env (asImportV v) (fun _ => True) := by
+  cases v <;> first | exact Safe.bad env _ _ (by decide) | exact Safe.pure env _ trivial
+theorem safe_asItemV (v : Val) : Safe env (asItemV v) (fun _ => True) := by
+  cases v <;> first | exact Safe.bad env _ _ (by decide) | exact Safe.pure env _ trivial
+theorem safe_asIfaceV (v : Val) : Safe env (asIfaceV v) (fun _ => True) := by
+  cases v <;> first | exact Safe.bad env _ _ (by decide) | exact Safe.pure env _ trivial
+theorem safe_asParcV (v : Val) : Safe env (asParcV v) (fun _ => True) := by
+  cases v <;> first | exact Safe.bad env _ _ (by decide) | exact Safe.pure env _ trivial
+theorem safe_asEnmV (v : Val) : Safe env (asEnmV v) (fun _ => True) := by
+  cases v <;> first | exact Safe.bad env _ _ (by decide) | exact Safe.pure env _ trivial
+theorem safe_asMethodV (v : Val) : Safe env (asMethodV v) (fun _ => True) := by
+  cases v <;> first | exact Safe.bad env _ _ (by decide) | exact Safe.pure env _ trivial
+theorem safe_asConstV (v : Val) : Safe env (asConstV v) (fun _ => True) := by
+  cases v <;> first | exact Safe.bad env _ _ (by decide) | exact Safe.pure env _ trivial
+theorem safe_asFieldV (v : Val) : Safe env (asFieldV v) (fun _ => True) := by
+  cases v <;> first | exact Safe.bad env _ _ (by decide) | exact Safe.pure env _ trivial
+theorem safe_asEnumElV (v : Val) : Safe env (asEnumElV v) (fun _ => True) := by
+  cases v <;> first | exact Safe.bad env _ _ (by decide) | exact Safe.pure env _ trivial
+theorem safe_asDirV (v : Val) : Safe env (asDirV v) (fun _ => True) := by
+  cases v <;> first | exact Safe.bad env _ _ (by decide) | exact Safe.pure env _ trivial
+theorem safe_asStrPairV (v : Val) : Safe env (asStrPairV v) (fun _ => True) := by
+  unfold asStrPairV
+  split <;> first | exact Safe.bad env _ _ (by decide) | exact Safe.pure env _ trivial
+theorem safe_asAnnParamV (v : Val) : Safe env (asAnnParamV v) (fun _ => True) := by
+  unfold asAnnParamV
+  split <;> first | exact Safe.bad env _ _ (by decide) | exact Safe.pure env _ trivial
+theorem safe_asLocTokV {v : Val} (h : GoodVal I v) : Safe env (asLocTokV v) (fun ls => Bd I ls.1) := by
+  unfold asLocTokV
+  split
+  · exact Safe.pure env _ (by simp only [GoodVal] at h; exact h.1)
+  · exact Safe.bad env _ _ (by decide)
 theorem safe_asArgV (v : Val) : Safe env (asArgV v) (fun _ => True) := by
   cases v <;> first | exact Safe.bad env _ _ (by decide) | exact Safe.pure env _ trivial
 theorem safe_asIelV (v : Val) : Safe env (asIelV v) (fun _ => True) := by
@@ -275,6 +308,33 @@ macro "sstep" : tactic => `(tactic| first
   | with_reducible refine Safe.bind _ (Safe.map _ (safe_asTok _) (fun _ _ => trivial) (Q := fun _ => True)) (fun _ _ => ?_)
   | with_reducible refine Safe.bind _ (Safe.mapM _ (P := fun _ => True) _ _ (fun _ _ => ?_)) (fun _ _ => ?_)
   | with_reducible exact safe_simpleType (by assumption) _ _ (by assumption) (by assumption)
+  | with_reducible exact safe_asPackageV _
+  | with_reducible refine Safe.bind _ (safe_asPackageV _) (fun _ _ => ?_)
+  | with_reducible exact safe_asImportV _
+  | with_reducible refine Safe.bind _ (safe_asImportV _) (fun _ _ => ?_)
+  | with_reducible exact safe_asItemV _
+  | with_reducible refine Safe.bind _ (safe_asItemV _) (fun _ _ => ?_)
+  | with_reducible exact safe_asIfaceV _
+  | with_reducible refine Safe.bind _ (safe_asIfaceV _) (fun _ _ => ?_)
+  | with_reducible exact safe_asParcV _
+  | with_reducible refine Safe.bind _ (safe_asParcV _) (fun _ _ => ?_)
+  | with_reducible exact safe_asEnmV _
+  | with_reducible refine Safe.bind _ (safe_asEnmV _) (fun _ _ => ?_)
+  | with_reducible exact safe_asMethodV _
+  | with_reducible refine Safe.bind _ (safe_asMethodV _) (fun _ _ => ?_)
+  | with_reducible exact safe_asConstV _
+  | with_reducible refine Safe.bind _ (safe_asConstV _) (fun _ _ => ?_)
+  | with_reducible exact safe_asFieldV _
+  | with_reducible refine Safe.bind _ (safe_asFieldV _) (fun _ _ => ?_)
+  | with_reducible exact safe_asEnumElV _
+  | with_reducible refine Safe.bind _ (safe_asEnumElV _) (fun _ _ => ?_)
+  | with_reducible exact safe_asDirV _
+  | with_reducible refine Safe.bind _ (safe_asDirV _) (fun _ _ => ?_)
+  | with_reducible exact safe_asStrPairV _
+  | with_reducible refine Safe.bind _ (safe_asStrPairV _) (fun _ _ => ?_)
+  | with_reducible exact safe_asAnnParamV _
+  | with_reducible refine Safe.bind _ (safe_asAnnParamV _) (fun _ _ => ?_)
+  | with_reducible refine Safe.bind _ (safe_asLocTokV (by with_unfolding_all goodval)) (fun _ _ => ?_)
   | with_reducible exact safe_asArgV _
   | with_reducible exact safe_asIelV _
   | with_reducible exact safe_asPelV _
